@@ -514,6 +514,9 @@ def ghost_msg(c):
     g["m_data"] = c.fresh("bytes", "m_data")
     g["fstart"] = c.fresh("int", "fstart")
     g["lastf"] = c.fresh("int", "lastf")
+    g["last_seq_ok"] = c.fresh("bool", "last_seq_ok")
+    g["seqf"] = SV("int", z3.IntVal(-1))
+    c.assume(z(g["lastf"]) >= 0)
     c.assume(z3.Implies(z(g["m_open"]), z3.Or(z(g["m_op"]) == 1, z(g["m_op"]) == 2)))
 
 
@@ -566,7 +569,10 @@ def install_data(e):
         if "m_open" not in c.ghost or not isinstance(r, Ref):
             return
         fin, op, pay = z(c.getf(r, "fin")), z(c.getf(r, "opcode")), z(c.getf(r, "data"))
-        fold_step(c, op, fin, pay)
+        isdata, seq_ok = fold_step(c, op, fin, pay)
+        # was this frame legal at this point of the data/continuation sequence?  (used by the acceptance clause of C05)
+        c.ghost["last_seq_ok"] = SV("bool", z3.Or(z3.Not(isdata), seq_ok))
+        c.ghost["seqf"] = c.ghost["lastf"]
         pa, npi = z(c.ghost["pong_acc"]), z(c.ghost["npings"], "int")
         enc = spec.rfc_encode(1, 0, 0, 0, 10, 1, pongkey(npi), pay)
         c.ghost["pong_acc"] = SV("bytes", z3.If(PONG_OK(op, pay), cat(pa, enc), pa))
@@ -664,7 +670,12 @@ def install_data(e):
         ws, fb, cf = parts(c, a)
         d = last(c)
         skip = z(c.getf(cf, "skip_utf8_validation"), "bool")
-        return z3.And(FB(c, fb), CF(c, cf), WSI(c, ws), tr_same(c, old, ws))
+        # acceptance (C05): a protocol exception is raised only for a frame RFC 6455 does not admit, or one that is illegal at this
+        # point of the data/continuation sequence - never for an admissible frame in a legal sequence (e.g. a 125-byte ping)
+        admissible = spec.rfc_ok(d.fin, d.rsv1, d.rsv2, d.rsv3, d.opcode, d.payload, skip, "must_accept")
+        judged = z(c.ghost["seqf"]) == z(c.ghost["lastf"])
+        refused_rightly = z3.If(judged, z3.Not(z3.And(admissible, z(c.ghost["last_seq_ok"], "bool"))), z3.Not(admissible))
+        return z3.And(FB(c, fb), CF(c, cf), WSI(c, ws), tr_same(c, old, ws), refused_rightly)
 
     def rdf_payload(c, old, a, exc):
         ws, fb, cf = parts(c, a)
@@ -693,11 +704,12 @@ def install_data(e):
                       z(c.getf(ws, "connected"), "bool") == z(entry.getf(ws, "connected"), "bool"),
                       z(c.ghost["draws"]) >= z(entry.ghost["draws"]) + z(c.ghost["npings"], "int"), z(c.ghost["npings"], "int") >= 0)
 
-    GH = ["rpos", "rx_calls", "fstart", "lastf", "wire", "tx_calls", "draws", "m_open", "m_op", "m_data", "pong_acc", "npings", "auto_close"]
+    GH = ["rpos", "rx_calls", "fstart", "lastf", "wire", "tx_calls", "draws", "m_open", "m_op", "m_data", "pong_acc", "npings", "auto_close",
+          "last_seq_ok", "seqf"]
 
     def havoc_ghosts(c):
         for g in GH:
-            tagg = {"m_open": "bool", "wire": "bytes", "m_data": "bytes", "pong_acc": "bytes"}.get(g, "int")
+            tagg = {"m_open": "bool", "wire": "bytes", "m_data": "bytes", "pong_acc": "bytes", "last_seq_ok": "bool"}.get(g, "int")
             c.ghost[g] = c.fresh(tagg, g)
 
     def havoc_objs(c, ws):
